@@ -124,7 +124,7 @@ def c04_ClosedContour (l : List (PathEl K)) : Prop :=
 /-- a contour that ends with a round start cap (the crate emits no `ClosePath` there): `MoveTo q`, drawing elements, then the
     `CurveTo`s of `round_cap s n`; `q = s - n` when point equality is sound -/
 def c04_RoundContour (l : List (PathEl K)) : Prop :=
-  ∃ q s n mid, l = PathEl.MoveTo q :: (mid ++ roundCap s n) ∧ c04_Segs mid ∧ (c04_PeqSound K → q = s - n)
+  ∃ q tol s n mid, l = PathEl.MoveTo q :: (mid ++ roundCap tol s n) ∧ c04_Segs mid ∧ (c04_PeqSound K → q = s - n)
 
 /-- what the stroker emits: closed contours, and with a round start cap also round-ended contours -/
 def c04_Good (style : StrokeStyle K) (x : List (PathEl K)) : Prop :=
@@ -136,16 +136,16 @@ theorem c04_squareCap_false_lines (s : Point K) (n : Vec2 K) : ∀ e ∈ squareC
     List.not_mem_nil, or_false] at he
   rcases he with rfl | rfl | rfl <;> rfl
 
-theorem c04_endCap_segs (style : StrokeStyle K) (lp rp : Point K) : c04_Segs (c04_endCap style lp rp) := by
+theorem c04_endCap_segs (tol : K) (style : StrokeStyle K) (lp rp : Point K) : c04_Segs (c04_endCap tol style lp rp) := by
   unfold c04_endCap
   split
   · exact c04_Segs_line _
-  · exact c04_Segs_of_curves (c04_roundCap_curves _ _)
+  · exact c04_Segs_of_curves (c04_roundCap_curves _ _ _)
   · exact c04_Segs_of_lines (c04_squareCap_false_lines _ _)
 
 open Ops in
-theorem c04_startCap_closed (style : StrokeStyle K) (s : Point K) (n : Vec2 K) (h : style.start_cap ≠ 2) :
-    ∃ m, c04_Segs m ∧ m.length ≤ 2 ∧ c04_startCap style s n = m ++ [PathEl.ClosePath] := by
+theorem c04_startCap_closed (tol : K) (style : StrokeStyle K) (s : Point K) (n : Vec2 K) (h : style.start_cap ≠ 2) :
+    ∃ m, c04_Segs m ∧ m.length ≤ 2 ∧ c04_startCap tol style s n = m ++ [PathEl.ClosePath] := by
   unfold c04_startCap
   split
   · exact ⟨[], c04_Segs_nil, by simp, rfl⟩
@@ -158,8 +158,8 @@ theorem c04_startCap_closed (style : StrokeStyle K) (s : Point K) (n : Vec2 K) (
       rcases he with rfl | rfl <;> rfl
     · simp
 
-theorem c04_startCap_round (style : StrokeStyle K) (s : Point K) (n : Vec2 K) (h : style.start_cap = 2) :
-    c04_startCap style s n = roundCap s n := by
+theorem c04_startCap_round (tol : K) (style : StrokeStyle K) (s : Point K) (n : Vec2 K) (h : style.start_cap = 2) :
+    c04_startCap tol style s n = roundCap tol s n := by
   unfold c04_startCap
   rw [h]
   rfl
@@ -181,22 +181,22 @@ theorem c04_finish_spec (style : StrokeStyle K) (c : StrokeCtx K) (h : C04Inv c)
   · obtain ⟨hf, hb⟩ := h.ok_of_ne he
     obtain ⟨rp, hrp⟩ := c04_lastEndPoint_PathOK hb
     obtain ⟨rev, hrev, hsegs, _⟩ := c04_extendReversed_segs hb
-    refine ⟨[c.forward_path ++ c04_endCap style c.last_pt rp ++ rev ++ c04_startCap style c.start_pt c.start_norm], ?_,
+    refine ⟨[c.forward_path ++ c04_endCap c.join_thresh style c.last_pt rp ++ rev ++ c04_startCap c.join_thresh style c.start_pt c.start_norm], ?_,
       fun _ => rfl, fun h0 => absurd h0 he, ?_⟩
     · intro x hx
       rw [List.mem_singleton] at hx
       subst hx
       obtain ⟨q, t, e0, ht⟩ := hf
-      have hmid : c04_Segs (t ++ c04_endCap style c.last_pt rp ++ rev) :=
-        c04_Segs_append (c04_Segs_append ht (c04_endCap_segs _ _ _)) hsegs
+      have hmid : c04_Segs (t ++ c04_endCap c.join_thresh style c.last_pt rp ++ rev) :=
+        c04_Segs_append (c04_Segs_append ht (c04_endCap_segs _ _ _ _)) hsegs
       by_cases h2 : style.start_cap = 2
       · right
-        refine ⟨h2, q, c.start_pt, c.start_norm, _, ?_, hmid, fun hs => h.head_f hs q t e0⟩
-        rw [c04_startCap_round style _ _ h2, e0]
+        refine ⟨h2, q, c.join_thresh, c.start_pt, c.start_norm, _, ?_, hmid, fun hs => h.head_f hs q t e0⟩
+        rw [c04_startCap_round _ style _ _ h2, e0]
         simp only [List.cons_append, List.append_assoc]
       · left
-        obtain ⟨m, hm, _, em⟩ := c04_startCap_closed style c.start_pt c.start_norm h2
-        refine ⟨q, (t ++ c04_endCap style c.last_pt rp ++ rev) ++ m, ?_, c04_Segs_append hmid hm⟩
+        obtain ⟨m, hm, _, em⟩ := c04_startCap_closed c.join_thresh style c.start_pt c.start_norm h2
+        refine ⟨q, (t ++ c04_endCap c.join_thresh style c.last_pt rp ++ rev) ++ m, ?_, c04_Segs_append hmid hm⟩
         rw [em, e0]
         simp only [List.cons_append, List.append_assoc]
     · rw [c04_finish_eq c style he hrp hrev]
